@@ -1676,13 +1676,18 @@ class ContractionTree:
 
                 # delete info we can't change
                 for k in (
-                    "inds",
                     "einsum_eq",
                     "can_dot",
                     "tensordot_axes",
                     "tensordot_perm",
                 ):
                     tree.info[node].pop(k, None)
+
+                # keep any explicit index ordering, simply without ``ind``, so
+                # that recipes cached on unaffected nodes above stay valid
+                inds = node_info.get("inds", None)
+                if inds is not None:
+                    node_info["inds"] = inds.replace(ind, "")
 
         tree.already_optimized.clear()
         tree.contraction_cores.clear()
@@ -1730,9 +1735,10 @@ class ContractionTree:
                 tree._remove_node(p)
                 tree.contract_nodes_pair(l, r)
 
-        # reset caches
+        # reset caches, including any explicit index orderings, since recipes
+        # on unaffected nodes might refer to the order of re-created ones
         tree.already_optimized.clear()
-        tree.contraction_cores.clear()
+        tree.reset_contraction_indices()
 
         return tree
 
